@@ -168,7 +168,8 @@ def run_manual(cfg, seq, clock):
             if name == "start":
                 ind.start(MSGS[item[2]])
                 message = MSGS[item[2]]
-                last_adv_ms = None
+                # every start arms the throttle: the first redraw by advance() is at least an interval after the start frame
+                last_adv_ms = clock.ms
             elif name == "advance":
                 ind.advance()
                 nadv += 1
@@ -220,7 +221,7 @@ def run_manual(cfg, seq, clock):
                 return Problem("manual|frame-count", "advance wrote %d frames" % len(frames)), (nframes, nadv)
             if frames:
                 if last_adv_ms is not None and clock.ms - last_adv_ms < cfg["interval"]:
-                    return Problem("manual|throttle", "advance redrew %d ms after the previous advance redraw, interval %d ms" % (
+                    return Problem("manual|throttle", "advance redrew %d ms after the previous advance redraw (or the start), interval %d ms" % (
                         clock.ms - last_adv_ms, cfg["interval"])), (nframes, nadv)
                 last_adv_ms = clock.ms
         # terminal
